@@ -159,6 +159,8 @@ def smt_case(prefix, failing):
                 except Exception as e:
                     obs.append((label, "exc:" + type(e).__name__))
             step("solve", lambda: solver.solve())
+            step("add q", lambda: solver.add_assertion(F["q"]))      # the symbol of the failed call is used again
+            step("solve1", lambda: solver.solve())
             step("add r", lambda: solver.add_assertion(F["r"]))
             step("solve2", lambda: solver.solve())
             step("model", lambda: sorted((k.symbol_name(), str(v)) for k, v in solver.get_model()
